@@ -43,15 +43,17 @@ Fixpoint pv_eqb (a b : pv) {struct a} : bool :=
   end.
 
 (** Exception classes (leaves of the hierarchy that matter here).  [GaiError] is socket.gaierror,
-    [InvalidSyntax] is message.InvalidSyntax (<: IkeSaError <: Exception), [OtherError] any other class. *)
+    [InvalidSyntax] is message.InvalidSyntax (<: IkeSaError <: Exception), [UnsupportedAlgorithm] is
+    cryptography.exceptions.UnsupportedAlgorithm (<: Exception), [OtherError] any other class. *)
 Inductive exc : Type :=
-| ConfigurationError | KeyError | AttributeError | TypeError | ValueError | GaiError | InvalidSyntax | OtherError.
+| ConfigurationError | KeyError | AttributeError | TypeError | ValueError | GaiError | InvalidSyntax
+| UnsupportedAlgorithm | OtherError.
 
 Definition exc_eqb (a b : exc) : bool :=
   match a, b with
   | ConfigurationError, ConfigurationError | KeyError, KeyError | AttributeError, AttributeError
   | TypeError, TypeError | ValueError, ValueError | GaiError, GaiError | InvalidSyntax, InvalidSyntax
-  | OtherError, OtherError => true
+  | UnsupportedAlgorithm, UnsupportedAlgorithm | OtherError, OtherError => true
   | _, _ => false
   end.
 
